@@ -59,8 +59,11 @@ def main():
         res['demo_clean_exit'] = p0.returncode
         ap_ = sh(['git', '-C', SCRATCH, 'apply', os.path.join(d, 'patch.diff')])
         if ap_.returncode:
-            res['error'] = 'patch does not apply: ' + ap_.stderr[:300]
+            res['error'] = 'patch does not apply to the current /repo HEAD (rebase it): ' + ap_.stderr[:300]
+            res['detected'] = False
+            json.dump(res, open(os.path.join(d, 'result.json'), 'w'), indent=1)
             rows.append(res)
+            print(sid, 'ERROR', res['error'])
             continue
         p1 = sh([PY, demo, SCRATCH], timeout=600)
         res['demo_patched_exit'] = p1.returncode
@@ -97,6 +100,9 @@ def main():
             c = r.get('checks', {}).get(r['property'], {})
             others = [k for k, v in r.get('checks', {}).items() if k != r['property'] and v.get('exit') == 1]
             neutral = r.get('demo_patched_exit') == 0 and not r.get('detected')
+            if r.get('error'):
+                f.write(f"| {r['id']} | {r['property']} | ERROR: {r['error'][:80]} | - | - |\n")
+                continue
             f.write(f"| {r['id']} | {r['property']} | {'yes' if r.get('detected') else ('n/a: neutralised by a later fix (its own demonstration passes)' if neutral else 'NO')}{(' (also ' + ','.join(others) + ')') if others else ''} | "
                     f"{'; '.join(c.get('signatures', [])[:3]) or '-'} | {r.get('needs', '')[:200].replace('|', '/')} |\n")
     print('written seeded/INDEX.md')
